@@ -47,6 +47,28 @@ def run(ctx, out):
                 ops.append(f"dec {s['name']} {C.hexs(pkt + after)}")
                 want.append(f"ok {shown} rem={C.hexs(junk + after)} reenc={C.hexs(b)}")
                 kinds.append("inner-junk")
+    # behind every NESTED element: each tagged element of each nested container (1-3 levels down) is moved to the front of its
+    # container, so that its siblings follow it — it must consume exactly its own length and hand the siblings back to the container
+    n_sib = 0
+    for k, (s, v, b) in enumerate(packets):
+        if n_sib > (20000 if thorough else 3000):
+            break
+        shown = V.show(layout, {"k": "struct", "name": s["name"]}, v)
+        for path, u, uv in S.sites(layout, s, v, 3):
+            if not S.tagged_suffix(u) or any(f["tag"] is None and f["ty"]["k"] == "opt" and uv[f["name"]] is None for f in u["fields"]):
+                continue
+            upos, groups = S.groups_of(layout, u, uv)
+            for i in range(1, len(groups)):
+                order = [i] + [j for j in range(len(groups)) if j != i]
+                body = S.wrap(layout, path, upos + b"".join(groups[j][1] for j in order))
+                if body is None or len(body) > 65535:
+                    continue
+                pkt = b[:2] + R.length_prefix("adpu", body) + body
+                x = bytes(rng.randrange(256) for _ in range(rng.choice([0, 3])))
+                ops.append(f"dec {s['name']} {C.hexs(pkt + x)}")
+                want.append(f"ok {shown} rem={C.hexs(x)} reenc={C.hexs(b)}")
+                kinds.append("nested-sibling")
+                n_sib += 1
     # the APDU-switch packets with a suffix
     for o in o2:
         name, hx = o.split()[1], o.split()[2]
@@ -89,6 +111,6 @@ def run(ctx, out):
             out.oracle_failures.append({"op": o, "observed": "…" + r[max(0, i - 60):i + 200], "expected": "…" + w[max(0, i - 60):i + 200], "key": o[:160],
                                         "what": f"appended bytes ({kd}) change the decoded value or are not handed back untouched"})
     out.rule = (f"{len(packets)} canonical packets of all {len(cmds)} command types x suffixes (empty, single bytes incl. all 256 for every 25th packet, valid packets, random up to 64 bytes) and junk spliced "
-                "into the APDU body behind the last container; at the packet reader, 2-4 reply packets (+ dangling bytes) delivered in ONE chunk are returned one by one; value, remainder (= suffix) and re-encoding compared with the no-suffix result on the implementation, and implementation = model. "
+                "into the APDU body behind the last container; every element of every nested container (1-3 levels down) moved in front of its siblings; at the packet reader, 2-4 reply packets (+ dangling bytes) delivered in ONE chunk are returned one by one; value, remainder (= suffix) and re-encoding compared with the no-suffix result on the implementation, and implementation = model. "
                 "non-trivial = distinct (packet, suffix) inputs")
     out.samples = [ops[1][:300], {"op": ops[-1][:120], "impl": impl[-1][-120:]}]
